@@ -28,8 +28,55 @@ var c02mix = []weighted{
 	{"pub", 34}, {"sleep", 16}, {"crash", 10}, {"restart", 12}, {"cut", 10}, {"heal", 8}, {"stall", 5},
 }
 
+// c02Chain builds a failover chain: a follower lags behind while the leadership moves on, catches up
+// across the epoch boundary, and is elected in turn; the deposed leaders come back with uncommitted tails.
+func c02Chain(r *simrt.Rand, p *hx.Program) {
+	a := func() []int64 { return []int64{int64(r.Intn(12)), int64(r.Intn(12)), int64(r.Intn(90)), int64(r.Intn(12))} }
+	add := func(k string) { p.Ops = append(p.Ops, hx.Op{K: k, A: a()}) }
+	pubs := func(n int) {
+		for i := 0; i < n; i++ {
+			add("pub")
+		}
+	}
+	p.Ops = nil
+	pubs(1 + r.Intn(2))
+	add("sleep")
+	rounds := 2 + r.Intn(2)
+	for i := 0; i < rounds; i++ {
+		if r.Pct(70) {
+			add("cutf")
+		}
+		pubs(1 + r.Intn(2))
+		p.Ops = append(p.Ops, hx.Op{K: "sleep", A: []int64{int64(3 + r.Intn(2))}}) // long: the lagging follower leaves the ISR
+		if r.Pct(60) {
+			add("isolate") // the leader keeps accepting messages nobody replicates
+			pubs(1 + r.Intn(2))
+		}
+		add("crashl")
+		p.Ops = append(p.Ops, hx.Op{K: "sleep", A: []int64{int64(3 + r.Intn(2))}}) // failover
+		pubs(1 + r.Intn(2))
+		add("heal")
+		p.Ops = append(p.Ops, hx.Op{K: "sleep", A: []int64{int64(2 + r.Intn(3))}}) // catch up, rejoin the ISR
+		if r.Pct(50) {
+			add("restartall")
+			add("sleep")
+		}
+	}
+	add("restartall")
+	pubs(1)
+}
+
 func genC02(r *simrt.Rand, tier string, idx int) *hx.Program {
 	p := clusterGen(r, tier, c02mix)
+	if r.Pct(40) {
+		p.P["nodes"], p.P["rf"] = 3, 3
+		p.P["minisr"] = int64(1 + r.Intn(2))
+		p.P["drop"], p.P["delay"] = 0, 0
+		p.P["lag_ms"] = []int64{1000, 2500}[r.Intn(2)]
+		p.P["leader_timeout_ms"] = []int64{1500, 3000}[r.Intn(2)]
+		c02Chain(r, p)
+		return p
+	}
 	if p.P["nodes"] < 3 && r.Pct(60) {
 		p.P["nodes"], p.P["rf"] = 3, 3
 		p.P["minisr"] = int64(1 + r.Intn(2))
@@ -42,6 +89,7 @@ type committedMsg struct {
 	off       int64
 	epoch     uint64
 	raftIndex uint64 // metadata operations committed when the ack left
+	stale     bool   // acknowledged by a leader acting on outdated metadata (cut off from the controller)
 }
 
 // c02Cause classifies a committed message missing on a replica by the two ways the code is known
@@ -49,6 +97,9 @@ type committedMsg struct {
 // cannot ask its leader, and a replica that is added to the in-sync set by an ISR expansion that was
 // still in flight when the message was committed without it.
 func c02Cause(c *cluster, replica string, m committedMsg) string {
+	if m.stale {
+		return "/acked-by-leader-cut-off-from-the-controller"
+	}
 	shrinks, expands := c.isrChanges(replica)
 	outside := false
 	for _, s := range shrinks {
@@ -75,7 +126,7 @@ func c02Committed(c *cluster) []committedMsg {
 		}
 		for _, o := range r.acks {
 			if o.ack.AckError == client.Ack_OK && o.leading {
-				out = append(out, committedMsg{r: r, off: o.ack.Offset, epoch: o.epoch, raftIndex: o.raftIndex})
+				out = append(out, committedMsg{r: r, off: o.ack.Offset, epoch: o.epoch, raftIndex: o.raftIndex, stale: c.staleView(o)})
 				break
 			}
 		}
@@ -124,6 +175,12 @@ func c02Boundary(c *cluster, final bool) {
 	tag := ""
 	if h.logHits["Failed to fetch last offset for leader epoch"] > 0 {
 		tag = "/after-hw-fallback-truncation"
+	}
+	for _, m := range com {
+		if m.stale {
+			// a leader cut off from the controller committed on its own: its high watermark is not the partition's
+			tag = "/leader-cut-off-from-the-controller-committed"
+		}
 	}
 	// pairwise agreement below both high watermarks
 	for i := 0; i < len(views); i++ {
